@@ -15,6 +15,7 @@ RULE = (
     "(identified by payload); nested call returns None and the outermost call the first event's result; with rtc=False nested events run "
     "immediately, depth-first and return their own result. Extra: call-stack depth read inside callbacks is constant per callback under RTC "
     "(for every chained event) and strictly grows with nesting under rtc=False. "
+    "In a quarter of the sync cases a second machine of the class is sent events from inside this machine's callbacks and must process them at once, by itself. "
     "non-trivial = >=2 nested sends from >=2 different callbacks in one external step, or a send issued by a queued event, or a chain with L>=50"
 )
 ASSUMPTIONS = [
@@ -94,7 +95,19 @@ def cases(draw, tier):
     cfg = {"rtc": True if is_async else draw(st.booleans()), "allow": draw(st.sampled_from([True, True, False])),
            "driver": draw(st.sampled_from(["sync", "loop"])), "activate": draw(st.booleans())}
     hist = draw(gen.history(spec, max_steps=6 if tier == "quick" else 10))
-    return {"spec": spec, "cfg": cfg, "history": hist}
+    case = {"spec": spec, "cfg": cfg, "history": hist}
+    if not is_async and cfg["driver"] == "sync" and cfg["rtc"] and draw(st.integers(0, 3)) == 0:
+        # a second machine is sent events from inside this machine's callbacks: each machine has its own queue
+        case["driver_listener"] = True
+        out = [{"op": "sibling", "allow": True}]
+        for step in hist:
+            if draw(st.booleans()):
+                evs = [{"ev": draw(st.sampled_from(spec["events"])), "args": [], "kw": {"d": k}} for k in range(draw(st.integers(1, 2)))]
+                out.append({"op": "drive_from_callback", "events": evs, "then": step})
+            else:
+                out.append(step)
+        case["history"] = out
+    return case
 
 
 @st.composite
